@@ -675,6 +675,23 @@ package types
 //@   callsite fn#1
 //@     assert [C20.emit.order,C02.emit.order] event == ret((*Slice).All, 1)[$i] && event != nil
 
+//@ func (*emmiter).ListenerCount(evt)
+//@   props C20
+//@   requires e != nil
+//@   assumes listenersOK(e)
+//@   modifies MapGuarded(e.evtListeners)
+//@   ensures [C20.emit.count] (!old(mhas(e.evtListeners, evt)) ==> result == 0) && (old(mhas(e.evtListeners, evt)) ==> result == len(old(mval(e.evtListeners, evt)).elements))
+//@ func (*emmiter).RemoveAllListeners(evt)
+//@   props C20
+//@   requires e != nil
+//@   modifies MapState(e.evtListeners)
+//@   ensures [C20.emit.removeall] result == old(mhas(e.evtListeners, evt)) && !mhas(e.evtListeners, evt)
+//@   ensures [C20.emit.removeall.others] forall k EventName :: k != evt ==> mhas(e.evtListeners, k) == old(mhas(e.evtListeners, k))
+//@ func (*emmiter).Clear()
+//@   props C20
+//@   requires e != nil
+//@   modifies MapGuarded(e.evtListeners)
+//@   ensures [C20.emit.clear] forall k EventName :: !mhas(e.evtListeners, k)
 //@ func (*emmiter).AddListener(evt, listeners)
 //@   props C20
 //@   requires e != nil
